@@ -67,6 +67,28 @@ progs!(h7 {
     t(x, z) <-- t(x, y), t(y, z);
 });
 
+// H8: two lattices feeding each other in one stratum: with inter-rule parallelism each rule reads rows of the
+// lattice the other one writes
+progs!(h8 {
+    relation e(i32, i32, u32);
+    lattice la(i32, Dual<u32>);
+    lattice lb(i32, Dual<u32>);
+    la(0, Dual(0)) <-- e(0, _, _);
+    lb(0, Dual(1)) <-- e(0, _, _);
+    la(y, Dual(d.0 + w)) <-- lb(x, d), e(x, y, w);
+    lb(y, Dual(d.0 + w)) <-- la(x, d), e(x, y, w);
+});
+// H6: binary eqrel in parallel: two workers insert pairs that join classes
+progs!(h6 {
+    relation s(i32, i32);
+    #[ds(ascent_byods_rels::eqrel)] relation r(i32, i32);
+    relation o(i32, i32);
+    relation step(i32);
+    r(x, y) <-- s(x, y);
+    r(y, z) <-- s(x, y), s(x, z);
+    o(x, y) <-- r(x, y);
+});
+
 macro_rules! run_h {
     ($rep:expr, $prop:expr, $name:expr, $m:ident, $workers:expr, $k:expr, $cap:expr, |$p:ident| $load:block, |$q:ident| $dump:block) => {{
         let expected = { let mut $p = $m::ser::P::default(); $load; $p.run(); let $q = &$p; $dump };
@@ -136,6 +158,23 @@ fn main() {
             explore_harness(&mut rep, &prop, &hname, w, klat, cap, &body, &expected);
         }
     }
+    {
+        let load = [(0, 1, 1u32), (0, 2, 3), (1, 2, 1), (2, 1, 1), (1, 0, 2)];
+        let expected = { let mut p = h8::ser::P::default(); for t in load { p.e.push(t); } p.run();
+            fmt_rel("la", p.la.iter().map(|t| (t.0, t.1 .0)).collect::<Vec<_>>()) + &fmt_rel("lb", p.lb.iter().map(|t| (t.0, t.1 .0)).collect::<Vec<_>>()) };
+        for (variant, label) in [(0, "par"), (1, "par+irp")] {
+            let hname = format!("H8-mutual-lattices[{}]", label);
+            if std::env::var("VSCHED_ONLY").ok().map_or(false, |o| o != hname) { continue; }
+            let body = move || -> String {
+                macro_rules! go { ($m:ident) => {{ let mut p = h8::$m::P::default(); for t in load { p.e.push(t); } p.run();
+                    fmt_rel("la", p.la.iter().map(|t| { let t = t.read().unwrap(); (t.0, t.1 .0) }).collect::<Vec<_>>()) + &fmt_rel("lb", p.lb.iter().map(|t| { let t = t.read().unwrap(); (t.0, t.1 .0) }).collect::<Vec<_>>()) }}; }
+                if variant == 0 { go!(par) } else { go!(irp) }
+            };
+            explore_harness(&mut rep, &prop, &hname, w, klat, cap, &body, &expected);
+        }
+    }
+    run_h!(&mut rep, &prop, "H6-eqrel", h6, w, klat, cap, |p| { for t in [(0, 1), (0, 2), (3, 4), (3, 1)] { p.s.push(t); } },
+        |q| { fmt_rel("o", q.o.iter().map(|t| t.clone()).collect::<Vec<_>>()) });
     rep.rule = "every execution of the harness with at most k deviations (forks = stolen jobs, preemptions at lock acquisitions, non-default worker slots) for 1, 2 and 3 workers; each execution's relations (row count, distinct tuples, lattice value per key) must equal the serial macro's; non-trivial = execution with at least one fork or preemption".into();
     rep.finish(start)
 }
